@@ -158,9 +158,10 @@ pub fn gen_consts(ch: &mut Ch) -> Vec<ConstDef> {
                     }
                 }
             }
-            13 => (" = vec3<f32>(1.0, 2.0, 3.0)".to_string(), None),
-            14 => (" = array<i32, 2>(1, 2)".to_string(), None),
-            _ => (": mat2x2<f32> = mat2x2<f32>(1.0, 0.0, 0.0, 1.0)".to_string(), None),
+            // non-scalar constants, also built from zero-value constructors and other constants
+            13 => ((*ch.pick(&[" = vec3<f32>(1.0, 2.0, 3.0)", " = vec3<f32>()", " = vec2<u32>()", ": vec4<i32> = vec4<i32>()", " = vec2<bool>()", " = vec4<f32>(0.5)"])).to_string(), None),
+            14 => ((*ch.pick(&[" = array<i32, 2>(1, 2)", " = array<f32, 3>()", ": array<vec2<f32>, 2> = array<vec2<f32>, 2>()"])).to_string(), None),
+            _ => ((*ch.pick(&[": mat2x2<f32> = mat2x2<f32>(1.0, 0.0, 0.0, 1.0)", " = mat3x3<f32>()", " = mat2x4<f32>()"])).to_string(), None),
         };
         out.push(ConstDef { name, decl, expect });
     }
